@@ -718,3 +718,14 @@ Theorem C17_doh_follow_redirects_refuted :
   doh_exchange doh_w_world doh_w_url = ([doh_w_url], Err EOther).
 Proof. exact doh_follow_refuted. Qed.
 Print Assumptions C17_doh_follow_redirects_refuted.
+
+(* the stream sockets a router opens itself — listen() and the connections of its upstreams (initUpstream) — carry
+   TCP_USER_TIMEOUT = 5000 ms in addition to every configured option *)
+Theorem C17_router_sockets_user_timeout : forall o n,
+  sko_is_tcp n = true ->
+  ska_utimeout (sko_router_control o n) = Some 5000%N /\
+  ska_mark (sko_router_control o n) = ska_mark (sko_control o n) /\
+  ska_dev (sko_router_control o n) = ska_dev (sko_control o n) /\
+  ska_reuseport (sko_router_control o n) = sko_reuseport o.
+Proof. exact router_sockets. Qed.
+Print Assumptions C17_router_sockets_user_timeout.
